@@ -718,3 +718,48 @@ def forward_attr_stores(fn) -> int:
             body[i], body[i + 1] = new1, new2
             count += 1
     return count
+
+
+def searches_to_loops(fn) -> int:
+    """`if not all(E for t in it): <exits>`  ->  `for t in it: if not E: <exits>`;  `if any(E for t in it): <exits>`  ->  `for t in it: if E: <exits>`
+    (all / any stop at the first deciding element, and the body leaves the function or the iteration, so the two forms evaluate the same things)"""
+    count = 0
+    for body in _stmt_blocks(fn):
+        for i, s in enumerate(body):
+            if not (isinstance(s, ast.If) and not s.orelse and s.body and isinstance(s.body[-1], (ast.Return, ast.Raise))):
+                continue
+            t = s.test
+            neg = False
+            while isinstance(t, ast.UnaryOp) and isinstance(t.op, ast.Not):
+                t = t.operand
+                neg = not neg
+            if not (isinstance(t, ast.Call) and isinstance(t.func, ast.Name) and t.func.id in ("all", "any") and len(t.args) == 1 and not t.keywords):
+                continue
+            if (t.func.id == "all") != neg:
+                continue  # `if all(...)` / `if not any(...)` are not searches for a witness
+            comp = t.args[0]
+            if not isinstance(comp, (ast.GeneratorExp, ast.ListComp)) or len(comp.generators) != 1 or comp.generators[0].is_async:
+                continue
+            inside = {id(n) for n in ast.walk(comp)}
+            tnames = {n.id for n in ast.walk(comp.generators[0].target) if isinstance(n, ast.Name)}
+            outside = {n.id for n in ast.walk(fn) if isinstance(n, ast.Name) and id(n) not in inside}
+            ren = {x: f"__s{count}_{x}" for x in tnames if x in outside}
+            comp2 = ast_copy(comp)
+            for n in ast.walk(comp2):
+                if isinstance(n, ast.Name) and n.id in ren:
+                    n.id = ren[n.id]
+            gen = comp2.generators[0]
+            gen.iter = ast_copy(comp.generators[0].iter)
+            cond = comp2.elt if t.func.id == "any" else ast.UnaryOp(op=ast.Not(), operand=comp2.elt)
+            inner = [ast.If(test=cond, body=s.body, orelse=[])]
+            for c in reversed(gen.ifs):
+                inner = [ast.If(test=c, body=inner, orelse=[])]
+            loop = ast.For(target=gen.target, iter=gen.iter, body=inner, orelse=[], type_comment=None)
+            for n in ast.walk(loop.target):
+                if isinstance(n, ast.Name):
+                    n.ctx = ast.Store()
+            ast.copy_location(loop, s)
+            ast.fix_missing_locations(loop)
+            body[i] = loop
+            count += 1
+    return count
